@@ -1,6 +1,8 @@
 (* Props/C02.v — property C02: statement extraction depends only on Fortran's lexical rules.
    Statements only; proofs in Lex/QuoteProofs.v and Lex/ReaderProofs.v. *)
-From Ford Require Import Base.Str Lex.Quote Lex.Reader Lex.ReaderSpec Lex.QuoteProofs Lex.ReaderProofs.
+From Ford Require Import Base.Str Lex.Mask Lex.MaskProofs.
+From Ford Require Import Lex.Quote Lex.Reader Lex.ReaderSpec Lex.QuoteProofs Lex.ReaderProofs
+  Lex.QuoteLower Lex.QuoteLowerProofs.
 
 (* Characters inside literals are never syntax: the literal-state scanner, the comment scanner
    and the ';' splitter, against the token-level specification (all token lists, all bodies). *)
@@ -89,3 +91,17 @@ Theorem C02_repaired_comment_in_literal :
   read_all default_cfg (render_file witness2) = ROk [s "x = 'abcdef'"].
 Proof. exact repaired_comment_in_literal. Qed.
 Print Assumptions C02_repaired_comment_in_literal.
+
+(* The parser's second literal pass (FortranContainer.__init__: literals cut out of the statement,
+   the option `lower` applied to what is left, literals put back — model Lex/Mask.v, tied to the
+   code by the checks of C18 and by the parser-level part of this check): for every statement made
+   of quote-free code and literals (any bodies, both delimiters, doubled delimiters, any number),
+   masking succeeds, and lower-casing the masked statement and unmasking it gives the statement
+   with its code lower-cased and every literal verbatim ([lower_outside], Lex/QuoteLower.v). *)
+Theorem C02_mask_lower_unmask : forall segs tail,
+  wf_line segs tail = true ->
+  mask (render segs tail) = Some (render_masked 0 segs tail, lits segs) /\
+  unmask_in (fun x => x) (lits segs) (lower (render_masked 0 segs tail))
+  = Some (lower_outside (render segs tail)).
+Proof. exact mask_lower_unmask. Qed.
+Print Assumptions C02_mask_lower_unmask.
